@@ -591,3 +591,115 @@ Section Main.
       apply stops0 in Hst. subst rest. rewrite E. cbn [items_comments]. apply app_nil_r.
   Qed.
 End Main.
+
+(* ------------------------------------------------------------------ the crate's table *)
+Lemma impl_table_pos : forall r a p, ops_get impl_table r = Some (a, p) -> 0 < p.
+Proof. intros r a p. destruct r; vm_compute; intro H; inversion H; lia. Qed.
+Lemma impl_table_postfix : forall r a p,
+  r = R_access \/ r = R_dot_access \/ r = R_call_list -> ops_get impl_table r = Some (a, p) -> a = Postfix.
+Proof. intros r a p [H|[H|H]]; subst r; vm_compute; intro H; inversion H; reflexivity. Qed.
+
+(* pairs_to_expr_with_comments keeps every comment of its token stream, in order *)
+Theorem pratt_c_keeps_comments : forall its t,
+  shapes_ok its = true -> no_empty_containers its = true ->
+  pratt_c its = Outcome.Ok (Some t) -> expr_comments t = items_comments its.
+Proof.
+  intros its t Hs Hn H. symmetry.
+  destruct (keeps_all impl_table infix_map prefix_map impl_table_pos impl_table_postfix
+                      (4 * items_size its + 4)) as (_ & _ & _ & _ & He).
+  apply He; [split; assumption|exact H].
+Qed.
+
+(* ------------------------------------------------------------------ statements: tree level *)
+Lemma strs_eqb_eq : forall a b, strs_eqb a b = true -> a = b.
+Proof.
+  induction a as [|x a IH]; destruct b as [|y b]; cbn; intro H; try discriminate H; [reflexivity|].
+  apply andb_prop in H as [H1 H2]. apply String.eqb_eq in H1. subst y. f_equal. apply IH; exact H2.
+Qed.
+
+Lemma stmt_keeps : forall text t s,
+  match stmt_items text t with
+  | Some g => shapes_ok g = true /\ no_empty_containers g = true
+  | None => True
+  end ->
+  stmt_of_tree text t = Outcome.Ok (Some s) ->
+  stmt_view_comments text t = match s with Some x => stmt_comments x | None => [] end.
+Proof.
+  intros text [r s0 e0 kids] s Hg H. unfold stmt_view_comments, stmt_items in *. cbn [tkids] in *.
+  cbn [stmt_of_tree] in H. destruct kids as [|first more]; [inversion H; reflexivity|].
+  assert (Hgen : forall (mk : Ast.expr -> stmt_kind),
+            (forall x, match mk x with SExpr e | SOut e => expr_comments e | SComment c => [c] end
+                       = expr_comments x) ->
+            shapes_ok (conv_kids text first) = true /\ no_empty_containers (conv_kids text first) = true ->
+            obind (pratt_c (conv_kids text first))
+              (fun r0 => Outcome.Ok
+                 match r0 with
+                 | Some x => Some (Some (St (mk x) (stmt_eol text (Node r s0 e0 (first :: more)))
+                                            (line_of text s0) (line_of text e0)))
+                 | None => None
+                 end) = Outcome.Ok (Some s) ->
+            items_comments (conv_kids text first) ++ opt_list (stmt_eol text (Node r s0 e0 (first :: more)))
+            = match s with Some x => stmt_comments x | None => [] end).
+  { intros mk Hmk [Hs Hn] H1.
+    destruct (pratt_c (conv_kids text first)) as [[x|]| | | |] eqn:Hp; cbn [obind] in H1; try discriminate H1.
+    inversion H1; subst s. cbn [stmt_comments]. rewrite Hmk.
+    rewrite (pratt_c_keeps_comments _ _ Hs Hn Hp). reflexivity. }
+  destruct (trule first) eqn:Hr;
+    try (apply (Hgen SExpr (fun _ => eq_refl) Hg H); fail).
+  - inversion H; subst s. reflexivity.
+  - apply (Hgen SOut (fun _ => eq_refl) Hg H).
+Qed.
+
+Lemma forest_keeps : forall text l p,
+  forallb shapes_ok (forest_items text l) = true ->
+  forallb no_empty_containers (forest_items text l) = true ->
+  program_of_forest text l = Outcome.Ok (Some p) ->
+  forest_view_comments text l = program_comments p.
+Proof.
+  intros text. induction l as [|t l IH]; intros p Hs Hn H.
+  - cbn in H. inversion H; reflexivity.
+  - cbn [program_of_forest] in H. unfold forest_view_comments, forest_items in *. cbn [flat_map] in *.
+    destruct (is_rule PG_statement t).
+    + rewrite forallb_app in Hs, Hn. apply andb_prop in Hs as [Hs1 Hs2]. apply andb_prop in Hn as [Hn1 Hn2].
+      destruct (stmt_of_tree text t) as [[s|]| | | |] eqn:Hst; cbn [obind] in H; try discriminate H.
+      destruct (program_of_forest text l) as [[p'|]| | | |] eqn:Hp; cbn [obind option_map] in H;
+        try discriminate H.
+      inversion H; subst p. rewrite (IH p' Hs2 Hn2 eq_refl).
+      rewrite (stmt_keeps text t s); [|destruct (stmt_items text t); [|exact I]; cbn [forallb] in Hs1, Hn1;
+                                        rewrite andb_true_r in Hs1, Hn1; split; assumption|exact Hst].
+      destruct s as [x|]; reflexivity.
+    + apply IH; assumption.
+Qed.
+
+(* (a) the tree's comment pairs = the comments of the commented program the drivers format *)
+Theorem parse_keeps_comments : forall text forest p,
+  forest_view_ok text forest = true ->
+  forest_shape_ok text forest = true ->
+  forest_no_empty_container text forest = true ->
+  program_of_forest text forest = Outcome.Ok (Some p) ->
+  program_comments p = forest_comments text forest.
+Proof.
+  intros text forest p Hv Hs Hn H. apply strs_eqb_eq in Hv. rewrite Hv. symmetry.
+  apply forest_keeps; assumption.
+Qed.
+
+(* the exclusion is necessary: `[ // c <LF> ]` *)
+Definition empty_container_witness : string := "[ // c" +++ nl +++ "]".
+Lemma parse_keeps_comments_refuted :
+  exists forest p,
+    parse_program_c empty_container_witness = PCOk forest p
+    /\ forest_view_ok empty_container_witness forest = true
+    /\ forest_shape_ok empty_container_witness forest = true
+    /\ forest_no_empty_container empty_container_witness forest = false
+    /\ forest_comments empty_container_witness forest = ["// c"]
+    /\ program_comments p = [].
+Proof.
+  destruct (parse_program_c empty_container_witness) as [forest p| | | |] eqn:H;
+    try (vm_compute in H; discriminate H).
+  exists forest, p. split; [reflexivity|].
+  assert (Hf : forest = match parse_program_c empty_container_witness with PCOk f _ => f | _ => [] end)
+    by (rewrite H; reflexivity).
+  assert (Hp : p = match parse_program_c empty_container_witness with PCOk _ q => q | _ => [] end)
+    by (rewrite H; reflexivity).
+  subst forest p. vm_compute. repeat split; reflexivity.
+Qed.
